@@ -87,15 +87,15 @@ Definition red_arith (o : binop) (a b : lit) : lres :=
 
 Definition cmp_int (o : binop) (x y : Z) : bool :=
   match o with
-  | Lt => x <? y | Gt => y <? x | Lte => x <=? y | Gte => y <=? x
-  | Eq => x =? y | Neq => negb (x =? y)
+  | OLt => x <? y | OGt => y <? x | OLe => x <=? y | OGe => y <=? x
+  | OEq => x =? y | ONe => negb (x =? y)
   | _ => false
   end.
 
 Definition cmp_flt (f : fmt) (o : binop) (x y : Z) : bool :=
   match o with
-  | Lt => fltb f x y | Gt => fgtb f x y | Lte => fleb f x y | Gte => fgeb f x y
-  | Eq => feqb f x y | Neq => fneb f x y
+  | OLt => fltb f x y | OGt => fgtb f x y | OLe => fleb f x y | OGe => fgeb f x y
+  | OEq => feqb f x y | ONe => fneb f x y
   | _ => false
   end.
 
@@ -109,8 +109,8 @@ Definition red_cmp (o : binop) (a b : lit) : lres :=
       | LDouble x, LDouble y => LR (LBool (cmp_flt b64 o x y))
       | LBool x, LBool y =>
           match o with
-          | Eq => LR (LBool (Bool.eqb x y))
-          | Neq => LR (LBool (negb (Bool.eqb x y)))
+          | OEq => LR (LBool (Bool.eqb x y))
+          | ONe => LR (LBool (negb (Bool.eqb x y)))
           | _ => LKeep
           end
       | _, _ => LKeep
@@ -147,7 +147,7 @@ Definition red_bits (o : binop) (a b : lit) : lres :=
 Definition red_bin (o : binop) (a b : lit) : lres :=
   match o with
   | Add | Sub | Mul | Div | Mod => red_arith o a b
-  | Lt | Gt | Lte | Gte | Eq | Neq => red_cmp o a b
+  | OLt | OGt | OLe | OGe | OEq | ONe => red_cmp o a b
   | And | Or => red_logic o a b
   | BAnd | BOr | BXor | Shl | Shr => red_bits o a b
   end.
@@ -270,7 +270,7 @@ Fixpoint no_known_defect (e : expr) : bool :=
       no_known_defect a && no_known_defect b &&
       negb (match o with
             | Mul => ty_is a TLong
-            | Neq => ty_is a TBool
+            | ONe => ty_is a TBool
             | _ => false
             end)
   | ECond c a b => no_known_defect c && no_known_defect a && no_known_defect b
